@@ -105,6 +105,7 @@ type Conn struct {
 	waiters   []chan struct{}
 	Frag      int
 	readDL    time.Time
+	byteReads int
 
 	// outbound
 	Log        []Ev
@@ -212,9 +213,13 @@ func (c *Conn) Read(p []byte) (int, error) {
 			if mode == FragMixed {
 				mode = c.sim.Tape.Choose(simrt.KNet, 3)
 			}
+			if mode == FragByte && c.byteReads >= 300 {
+				mode = FragRandom // byte-wise delivery is kept for the first few hundred bytes (headers, delimiters)
+			}
 			switch mode {
 			case FragByte:
 				n = 1
+				c.byteReads++
 				c.Fired.ByteReads++
 			case FragRandom:
 				n = 1 + c.sim.Tape.Choose(simrt.KNet, max)
